@@ -30,6 +30,7 @@ structure Code where
   fetchMode : FetchMode
   fetchIncr : Nat
   initNext : Nat
+  resetsNext : Bool            -- `initNext` is stored at the start of every call of cimba_run_experiment (not only statically)
   stopWhen : Nat → Nat → Bool
   elemAddr : Nat → Nat → Nat → Nat
   spawnStart : Nat
@@ -40,7 +41,7 @@ structure Code where
 /-- the dispenser as documented: one atomic fetch-and-add of 1 from 0, stop at `idx ≥ n`, element `base + idx·sz`,
     create and join every one of the W threads -/
 def Code.reference : Code :=
-  { fetchMode := .atomicFetchAdd, fetchIncr := 1, initNext := 0,
+  { fetchMode := .atomicFetchAdd, fetchIncr := 1, initNext := 0, resetsNext := true,
     stopWhen := fun i n => decide (n ≤ i), elemAddr := fun b i s => b + i * s,
     spawnStart := 0, spawnCond := fun k W => decide (k < W), joinStart := 0, joinCond := fun k W => decide (k < W) }
 
@@ -119,6 +120,22 @@ def step (c : Code) (p : Params) (s : State) : Actor → State
 /-- the state after a schedule -/
 def run (c : Code) (p : Params) (sched : List Actor) : State :=
   sched.foldl (step c p) (init c p)
+
+/-- value of the shared counter when an experiment starts, given what the previous experiment of the process left in it
+    (`initNext`, the static initialiser, for the first one) -/
+def startNext (c : Code) (prev : Nat) : Nat := if c.resetsNext then c.initNext else prev
+
+def initFrom (c : Code) (p : Params) (prev : Nat) : State := { init c p with next := startNext c prev }
+
+def runFrom (c : Code) (p : Params) (prev : Nat) (sched : List Actor) : State :=
+  sched.foldl (step c p) (initFrom c p prev)
+
+/-- one process calling `cimba_run_experiment` several times, one call after the other: the states in which the calls end -/
+def runSeq (c : Code) : Nat → List (Params × List Actor) → List State
+  | _, [] => []
+  | prev, (p, sched) :: rest => runFrom c p prev sched :: runSeq c (runFrom c p prev sched).next rest
+
+def runProcess (c : Code) (exps : List (Params × List Actor)) : List State := runSeq c c.initNext exps
 
 /-- indices held by workers that have fetched but not yet compared -/
 def pendingOf : WState → List Nat
